@@ -93,6 +93,28 @@ def long_context_programs():
     return out
 
 
+def disabled_parent_programs():
+    """A logger that is Disabled for a while is still a value: what is derived from it (With + fields, UpdateContext) while it
+    is disabled must be there, and independent of its siblings, once a descendant is re-enabled with Level()."""
+    W = lambda i, j: {"op": "With", "i": i, "j": j, "a": 0}
+    F = lambda i, a: {"op": "Field", "i": i, "j": i, "a": a}
+    L = lambda i: {"op": "Logger", "i": i, "j": i, "a": 0}
+    Lv = lambda i, j, x: {"op": "Level", "i": i, "j": j, "a": x}
+    E = lambda i: {"op": "Emit", "i": i, "j": i, "a": 0}
+    out = []
+    for k in (0, 1, 2, 4):                      # fields the parent has before it is disabled (0: no context buffer yet)
+        pre = ([W(1, 2)] + [F(2, a) for a in range(1, k + 1)] + [L(2)]) if k else [Lv(1, 2, 0)]
+        # two siblings derived from the disabled parent, each re-enabled
+        out.append({"id": "disabled-siblings-%d" % k, "S": 4, "steps": pre + [Lv(2, 2, 7), W(2, 3), F(3, k + 1), L(3), W(2, 4), F(4, k + 2), L(4),
+                                                                            Lv(3, 3, 0), Lv(4, 4, 0), E(3), E(4), E(3)]})
+        # UpdateContext on the disabled parent after a child was derived; both re-enabled
+        if k:
+            out.append({"id": "disabled-update-%d" % k, "S": 4, "steps": pre + [Lv(2, 2, 7), W(2, 3), F(3, k + 1), L(3), {"op": "Update", "i": 2, "j": 2, "a": k + 2},
+                                                                                Lv(3, 3, 0), Lv(2, 4, 0), E(3), E(4)]})
+            out.append({"id": "disabled-update-only-%d" % k, "S": 3, "steps": pre + [Lv(2, 2, 7), {"op": "Update", "i": 2, "j": 2, "a": k + 1}, Lv(2, 3, 1), E(3)]})
+    return out
+
+
 def random_programs(n, seed, S=5, length=14):
     """Seeded random derivation programs within the statement's shapes (affine use of Context values,
     UpdateContext only on a logger fresh from With()...Logger()), longer than the model's bound."""
@@ -198,6 +220,7 @@ def check(pid, tier, seed, replay=None):
             scripts += random_programs(6000 if thorough else 1500, seed)
             scripts += hook_fork_programs(2000 if thorough else 400, seed)
             scripts += long_context_programs()
+            scripts += disabled_parent_programs()
             scripts += DIRECTED
         log("%s: %d programs %.0fs" % (pid, len(scripts), time.time() - t0))
         recs = run_player(player, sc, "tree", [json.dumps(s) for s in scripts], shards=NCPU)
